@@ -302,10 +302,6 @@ var Entries = []Entry{
 		inv := stats.InvCDF(stats.TDist{V: 3})
 		return (&Enc{}).F(inv(0), inv(0.2), inv(1)).Bytes()
 	}, "stats"},
-	{"stats.InvCDF(UDist)", func(f *Fix) []byte {
-		inv := stats.InvCDF(f.UD)
-		return (&Enc{}).F(inv(0), inv(0.5), inv(1)).Bytes()
-	}, "stats"},
 	{"stats.InvCDF(BinomialDist)", func(f *Fix) []byte {
 		inv := stats.InvCDF(stats.BinomialDist{N: 7, P: 0.3})
 		return (&Enc{}).F(inv(0), inv(0.5), inv(1)).Bytes()
@@ -314,12 +310,11 @@ var Entries = []Entry{
 		inv := stats.InvCDF(f.KDE)
 		return (&Enc{}).F(inv(0.2), inv(1)).Bytes()
 	}, "stats"},
-	{"stats.Rand(scripted source)", func(f *Fix) []byte {
-		e := &Enc{}
-		g := stats.Rand(stats.TDist{V: 4})
+	{"stats.Rand(seeded source)", func(f *Fix) []byte {
+		g := stats.Rand(stats.BinomialDist{N: 5, P: 0.4})
 		n := stats.Rand(stats.NormalDist{Mu: 1, Sigma: 2})
 		r1, r2 := rand.New(rand.NewSource(11)), rand.New(rand.NewSource(12))
-		return e.F(g(r1), n(r2), n(r2)).Bytes()
+		return (&Enc{}).F(g(r1), n(r2), n(r2)).Bytes()
 	}, "stats"},
 	{"stats.NormalDist/TDist/BinomialDist/HypergeometicDist", func(f *Fix) []byte {
 		n := stats.NormalDist{Mu: 0.5, Sigma: 2}
